@@ -67,6 +67,24 @@ def class_fields(world, cls):
     return out
 
 
+def norm_stmts(sts):
+    """total records for the specification: every foreach statement carries 'of' (enclosing iteration variable, or "")"""
+    out = []
+    for st in sts:
+        st = dict(st)
+        k = st.get("k")
+        if k == "foreach":
+            st.setdefault("of", "")
+            st["body"] = norm_stmts(st["body"])
+        elif k == "if":
+            st["arms"] = [dict(a, body=norm_stmts(a["body"])) for a in st["arms"]]
+            st["els"] = norm_stmts(st["els"])
+        elif k == "imp":
+            st["body"] = norm_stmts(st["body"])
+        out.append(st)
+    return out
+
+
 def flatten(world):
     W = {"classes": {}, "objs": {}, "lists": {}, "scalars": {}, "rls": {}}
     for cn, c in world["classes"].items():
@@ -76,7 +94,8 @@ def flatten(world):
                 ftypes[f["name"]] = {"w": f["w"], "s": f["signed"]}
             elif f["kind"] == "enum":
                 ftypes[f["name"]] = {"w": 32, "s": True}
-        W["classes"][cn] = {"base": c.get("base") or "", "blocks": c.get("blocks", []),
+        W["classes"][cn] = {"base": c.get("base") or "",
+                            "blocks": [dict(b, body=norm_stmts(b["body"])) for b in c.get("blocks", [])],
                             "ftypes": ftypes or {"_": {"w": 1, "s": False}},
                             "hascb": bool(c.get("cb"))}
 
@@ -240,7 +259,10 @@ class Emit:
                 args.append(self.path(a["p"]) if a["k"] == "lst" else self.expr(a))
             vsc.unique(*args)
         elif k == "foreach":
-            lst = self.path(s["l"])
+            if s.get("of"):
+                lst = getattr(self.bind[s["of"]]["it"], s["l"])       # a list owned by the element of an enclosing foreach
+            else:
+                lst = self.path(s["l"])
             use_it, use_idx = s.get("it", True), s.get("idx", False)
             if use_it and use_idx:
                 with vsc.foreach(lst, idx=True, it=True) as (i, it):
